@@ -98,12 +98,23 @@ class ProxyConnection:
         self._fault("u")
         return ProxyCursor(self, self._raw.cursor(*a, **kw))
 
+    # Driver-level autocommit is sqlite3's `autocommit=True` attribute here; the pysqlite
+    # dialect's AUTOCOMMIT is the legacy `isolation_level = None` mode, in which commit() /
+    # rollback() still end a transaction that SQL (a SAVEPOINT) has opened - emulated.
     def commit(self):
         self._fault("c")
+        if self._raw.autocommit is True:
+            if self._raw.in_transaction:
+                self._raw.execute("COMMIT")
+            return None
         return self._raw.commit()
 
     def rollback(self):
         self._fault("r")
+        if self._raw.autocommit is True:
+            if self._raw.in_transaction:
+                self._raw.execute("ROLLBACK")
+            return None
         return self._raw.rollback()
 
     def close(self):
@@ -450,6 +461,8 @@ class World:
             try:
                 if p._raw.autocommit is True:
                     rid += "a"
+                    if p._raw.in_transaction:
+                        rid += "t"  # a transaction opened by SQL (SAVEPOINT) in autocommit mode
                 if p._raw.execute("PRAGMA read_uncommitted").fetchone()[0]:
                     rid += "u"
             except sqlite3.Error:
